@@ -96,6 +96,8 @@ class C15(PropBase):
         "and the model's own parser must accept the real view",
         "extraction ExtrOcamlBasic; ocaml/c15/main.ml (UTF-8 <-> code points); harness/src/bin/c15.rs + c14.rs (dump synthesis)",
         "props/c15_schema.py: hand transcription of json-schema.md; Python's json module as the independent JSON parser of the oracle",
+        "translate/c15_enums.py: regexes over FrameTrust::as_str, Os::long_name, Display for Cpu / MemoryAccessType, CrashInconsistency and the value lists of "
+        "json-schema.md (aborts on unrecognised shapes); ASCII lower-casing assumed for to_lowercase()",
     ]
     assumptions = [
         "partial: schema conformance of all fields is judged by the oracle on generated dumps, not proved",
@@ -110,7 +112,10 @@ class C15(PropBase):
                 "control character in any string; thread_count = |threads|, frame_count = |frames|, frame = position; the crashing_thread copy equals "
                 "threads[threads_index] plus threads_index and registers in frame 0 and exists iff the requesting thread has a frame; module_offset / "
                 "function_offset = offset - base without trap in both build profiles under the stated C08/C11 hypotheses; modules / unloaded_modules mirror "
-                "the lists with end_addr = base + size; Address strings are 0x + lower-case hex of exact length 18 (64-bit, unknown) or 10 (32-bit values below 2^32).",
+                "the lists with end_addr = base + size; Address strings are 0x + lower-case hex of exact length 18 (64-bit, unknown) or 10 (32-bit values below 2^32); "
+                "c15_enumerations (finite check over name tables regenerated from the source and from json-schema.md each run): every trust / access_type / "
+                "crash_inconsistencies / cpu_arch / named os string the report can carry is a documented value. The generator plants amd64 instruction bytes, registers and "
+                "memory info so every optional crash_info member occurs; per-member coverage counts are in the evidence.",
         "note": "Trusted: Coq kernel + DecimalN; hand-written model (correspondence-checked against print_json compact output; pretty output is compared by the oracle); "
                 "serde_json writer assumed; schema transcription by hand. The runtime behaviour not exhibited by the model: serde_json's byte-level writer and every "
                 "field outside the modelled view.",
